@@ -93,6 +93,17 @@ func judge(sc *Scenario, res *result) (misses []miss, classes []string) {
 	if n := len(res.Arrivals); n > 1+sc.retriesAllowed() {
 		add(true, "too-many-attempts", "%d attempts reached the upstreams, budget is 1+%d", n, sc.retriesAllowed())
 	}
+	// ... and at least one: with every host alive, a matching route and a client that stays, the request has to reach
+	// an upstream (an error reply, however well-formed, is not an outcome of any injected event then)
+	if len(res.Arrivals) == 0 && sc.allLive() && sc.Special == "" && !res.Disconnected {
+		kind := "two-way"
+		if sc.Oneway {
+			kind = "oneway"
+		} else if sc.Post {
+			kind = "with-body"
+		}
+		add(false, "request-never-forwarded:"+sc.Proto+":"+kind, "every host is alive and the route matches, yet no attempt reached an upstream (client got %d reply(ies))", len(res.Resp))
+	}
 	if sc.Oneway && len(res.Arrivals) > 1 {
 		add(true, "oneway-retried", "%d attempts for a one-way request", len(res.Arrivals))
 	}
